@@ -1,7 +1,8 @@
 (** C20 — benchmark models implement their documented estimators.
     Property theorems only; models in Api/Bench.v, proofs in Api/BenchProofs.v, non-vacuity in Api/BenchExamples.v. *)
 From Coq Require Import QArith List Bool Arith Permutation Sorted.
-From Leaspy Require Import Base.QAux Api.Bench Api.BenchProofs Api.BenchExamples Api.BenchTie.
+From Leaspy Require Import Base.QAux Api.Bench Api.BenchProofs Api.BenchExamples Api.BenchTie Api.BenchNumpy Api.BenchSrcTie.
+From LeaspyGen Require Import GenC20.
 Import ListNotations.
 
 (** 'last': the row of a visit whose age is >= every age; determined by that, hence independent of the row
@@ -183,3 +184,33 @@ Proof.
   now apply lme_trajectory_line.
 Qed.
 Print Assumptions C20_line.
+
+(* ==================================================================================== *)
+(** * Source-level tie (extension): the definitions REGENERATED from the python source on every run
+      (coq/gen/GenC20.v, by harness/translate/c20_bench.py) are the model the theorems above speak about *)
+
+(** [_get_feature_values] as written in the code (which reduction per prediction type, index sort by age with
+    [reverse=True], first non-NaN by argmax, fancy indexing) is [predict], for every rectangular table ... *)
+Theorem C20_src_feature_values : forall k d t, wf d t -> gen_feature_values k d t = predict k d t.
+Proof. exact gen_feature_values_eq. Qed.
+Print Assumptions C20_src_feature_values.
+
+(** ... and for every table whatsoever for 'last', 'max', 'mean' *)
+Theorem C20_src_feature_values_any : forall k d t, k <> LastKnown -> gen_feature_values k d t = predict k d t.
+Proof. exact gen_feature_values_eq_any. Qed.
+Print Assumptions C20_src_feature_values_any.
+
+(** hence the regenerated code itself meets the order-free specifications *)
+Theorem C20_src_estimators : forall d t, wf d t -> t <> [] ->
+  (exists row, gen_feature_values Last d t = Ok row /\ is_last t row) /\
+  (forall k P, (k = LastKnown /\ P = is_last_known) \/ (k = Max /\ P = is_max) \/ (k = Mean /\ P = is_mean) ->
+     exists vs, gen_feature_values k d t = Ok vs /\ length vs = d /\
+       forall j, (j < d)%nat -> exists v, nth_error vs j = Some v /\ P (col j t) v /\ (v = None <-> all_missing (col j t))).
+Proof. exact gen_estimators. Qed.
+Print Assumptions C20_src_estimators.
+
+(** [ConstantModel.compute_individual_trajectory]: one individual, the value vector at every requested age *)
+Theorem C20_src_constant_trajectory : forall vals ages,
+  gen_constant_trajectory vals ages = [trajectory vals ages].
+Proof. exact gen_constant_trajectory_eq. Qed.
+Print Assumptions C20_src_constant_trajectory.
